@@ -525,6 +525,118 @@ func TestMutatedInputs(t *testing.T) {
 	})
 }
 
+// Legal inputs that are extreme in one dimension (all below 4 KiB): nesting depth, number of
+// properties / items / alternatives / enum items, length of one token. Every call must return
+// (the 60 s watchdog of session is the oracle; a cost that doubles per level does not).
+func TestLegalExtremes(t *testing.T) {
+	run.SkipIfReplaying(t)
+	defer run.Done(t, chk)
+	rapid.Check(t, func(t *rapid.T) {
+		var c Case
+		rep := strings.Repeat
+		switch rapid.IntRange(0, 7).Draw(t, "dimension") {
+		case 0: // nested arrays
+			d := rapid.IntRange(8, 150).Draw(t, "depth")
+			c.Schema = rep("[", d) + "1" + rep("]", d)
+			c.Docs = []string{c.Schema, rep("[", d) + rep("]", d), rep("[", d+1) + "1" + rep("]", d+1)}
+			run.Label("extreme:array-depth")
+		case 1: // nested objects
+			d := rapid.IntRange(8, 120).Draw(t, "depth")
+			c.Schema = rep(`{"a":`, d) + "1" + rep("}", d)
+			c.Docs = []string{c.Schema, rep(`{"a":`, d-1) + "{}" + rep("}", d-1)}
+			run.Label("extreme:object-depth")
+		case 2: // arrays and objects alternating, with annotations on the way
+			d := rapid.IntRange(4, 60).Draw(t, "depth")
+			c.Schema = rep("[\n{ // {additionalProperties: true}\n\"k\": ", d) + "1 // {min: 0}\n" + rep("}\n]", d)
+			c.Docs = []string{rep(`[{"k":`, d) + "1" + rep("}]", d)}
+			run.Label("extreme:mixed-depth")
+		case 3: // many properties
+			n := rapid.IntRange(50, 300).Draw(t, "n")
+			var b, dd strings.Builder
+			b.WriteString("{\n")
+			dd.WriteString("{")
+			for i := 0; i < n; i++ {
+				comma := ","
+				if i == n-1 {
+					comma = ""
+				}
+				fmt.Fprintf(&b, "  \"p%d\": %d%s // {optional: true}\n", i, i, comma)
+				fmt.Fprintf(&dd, "\"p%d\":%d%s", i, i, comma)
+			}
+			b.WriteString("}")
+			dd.WriteString("}")
+			c.Schema, c.Docs = b.String(), []string{dd.String(), "{}"}
+			run.Label("extreme:property-count")
+		case 4: // many alternatives and enum items
+			n := rapid.IntRange(20, 120).Draw(t, "n")
+			var items, alts []string
+			for i := 0; i < n; i++ {
+				items = append(items, fmt.Sprint(i))
+				alts = append(alts, fmt.Sprintf(`{type: "integer", min: %d, max: %d}`, i, i))
+			}
+			c.Schema = "{\n  \"e\": 1, // {enum: [" + strings.Join(items, ", ") + "]}\n  \"o\": 1 // {or: [" + strings.Join(alts, ", ") + "]}\n}"
+			c.Docs = []string{fmt.Sprintf(`{"e":%d,"o":%d}`, n-1, n-1), `{"e":-1,"o":-1}`}
+			run.Label("extreme:alternative-count")
+		case 5: // one long token
+			n := rapid.IntRange(500, 3500).Draw(t, "n")
+			switch rapid.IntRange(0, 2).Draw(t, "tok") {
+			case 0:
+				c.Schema = `"` + rep("s", n) + `" // {minLength: 1}`
+				c.Docs = []string{`"` + rep("t", n) + `"`}
+			case 1:
+				c.Schema = "1" + rep("0", n) + " // {min: 0}"
+				c.Docs = []string{"1" + rep("0", n), "1e" + fmt.Sprint(n), "0." + rep("0", n) + "1"}
+			default:
+				c.Schema = "1 // {min: 0} - " + rep("note ", n/5)
+				c.Docs = []string{"1"}
+			}
+			run.Label("extreme:token-length")
+		case 6: // a long chain of type references
+			n := rapid.IntRange(10, 80).Draw(t, "n")
+			c.Schema = "@t0"
+			for i := 0; i < n; i++ {
+				next := fmt.Sprintf("@t%d", i+1)
+				if i == n-1 {
+					next = "1"
+				}
+				form := []string{next, "[" + next + "]", "{\n  \"k\": " + next + "\n}", next + " | @leaf"}[rapid.IntRange(0, 3).Draw(t, "form")]
+				if i == n-1 {
+					form = "1"
+				}
+				c.Types = append(c.Types, [2]string{fmt.Sprintf("@t%d", i), form})
+			}
+			c.Types = append(c.Types, [2]string{"@leaf", `"x"`})
+			c.Docs = []string{"1", `"x"`, "[[1]]"}
+			run.Label("extreme:reference-chain")
+		default: // wide and deep at once: a full tree
+			d := rapid.IntRange(2, 5).Draw(t, "depth")
+			w := rapid.IntRange(2, 3).Draw(t, "width")
+			var build func(d int) string
+			build = func(d int) string {
+				if d == 0 {
+					return "1"
+				}
+				parts := make([]string, w)
+				for i := range parts {
+					parts[i] = build(d - 1)
+				}
+				return "[" + strings.Join(parts, ",") + "]"
+			}
+			c.Schema = build(d)
+			c.Docs = []string{c.Schema}
+			run.Label("extreme:full-tree")
+		}
+		if len(c.Schema) > 4096 {
+			return
+		}
+		rendered := session(t, c)
+		run.Eval(chk, true, fmt.Sprint(c))
+		if rendered > 0 {
+			run.Label("error-rendered")
+		}
+	})
+}
+
 // every truncation of valid texts
 func TestTruncations(t *testing.T) {
 	run.SkipIfReplaying(t)
